@@ -242,6 +242,22 @@ ResultOK(op, a, cfg, msg, r) ==
     [] r.t = "nil" -> "nil" \in s
     [] OTHER -> "val" \in s /\ ValueOK(op, a, cfg, dec, r)
 
+\* ---- Route: where a request goes (C06) ---------------------------------------------------------
+(* cfg = [bind, broadcast, devices]; addresses are [valid, ip, port]; a device is [name, serial,   *)
+(* addr, proto]. A controller is reached directly only when it is configured with a usable address: *)
+(* valid, not 0.0.0.0, port not 0; over TCP only when its protocol is exactly "tcp".                 *)
+DefaultBroadcast == [ip |-> <<255, 255, 255, 255>>, port |-> 60000]
+BroadcastOf(cfg) == IF cfg.broadcast.valid THEN [ip |-> cfg.broadcast.ip, port |-> cfg.broadcast.port] ELSE DefaultBroadcast
+Usable(a) == a.valid /\ a.ip # <<0, 0, 0, 0>> /\ a.port # 0
+DeviceOf(cfg, serial) == {i \in 1..Len(cfg.devices) : cfg.devices[i].serial = serial}
+Route(op, cfg, serial) ==
+  IF op = "GetDevices" THEN [m |-> "Broadcast", ip |-> BroadcastOf(cfg).ip, port |-> BroadcastOf(cfg).port]
+  ELSE LET ds == DeviceOf(cfg, serial) IN
+       IF ds = {} \/ ~Usable(cfg.devices[CHOOSE i \in ds : TRUE].addr)
+         THEN [m |-> "BroadcastTo", ip |-> BroadcastOf(cfg).ip, port |-> BroadcastOf(cfg).port]
+         ELSE LET d == cfg.devices[CHOOSE i \in ds : TRUE] IN
+              [m |-> IF d.proto = "tcp" THEN "SendTCP" ELSE "SendUDP", ip |-> d.addr.ip, port |-> d.addr.port]
+
 \* SetAddress: controllers do not reply; the call succeeds once the request is sent
 SetAddressResult(a) == [t |-> "result", serial |-> a.serial, ok |-> TRUE]
 ==========================================================================
